@@ -460,6 +460,10 @@ class Engine(object):
         self._known_seen = set()
         self.known = []          # known-finding entries for this property/config
         self.max_cex = None
+        self.seed = seed
+        self.cvc5 = {}
+        self.cvc5_budget = 12      # queries per job
+        self.cvc5_every = 7
         self.split_forks = None   # stop at the k-th genuine fork and emit shards
         self.shards = []
         self.cex_per_tag = {}
@@ -844,6 +848,7 @@ class Engine(object):
                 print("  slow obligation %.1fs %s: %s" % (time.time() - _t, r, ob.tag), flush=True)
             if r == z3.unsat:
                 self.discharged += 1
+                self._second_opinion(n)
             elif r == z3.sat:
                 self.failed_obligations += 1
                 nm = self._nice_model(n) if self._cex_wanted(ob.tag) else None
@@ -857,6 +862,21 @@ class Engine(object):
                     with open(_os.path.join(dd, "unk_%d_%d.smt2" % (_os.getpid(), len(self.unknown))), "w") as fh:
                         fh.write(sd.to_smt2())
         self.tobl += time.time() - t0
+
+    def _second_opinion(self, neg):
+        """a seeded sample of the obligations z3 discharged is re-decided by cvc5"""
+        self._so_seen = getattr(self, "_so_seen", 0) + 1
+        if self.cvc5_budget <= 0 or (self._so_seen * 2654435761 + self.seed) % self.cvc5_every != 0:
+            return
+        self.cvc5_budget -= 1
+        sd = self._fresh_solver()
+        sd.add(neg)
+        r = cvc5_check(sd.to_smt2())
+        if r is None:
+            return
+        self.cvc5[r] = self.cvc5.get(r, 0) + 1
+        if r == "sat":
+            self.unknown.append(dict(tag="solver disagreement: z3 unsat, cvc5 sat", trace=len(self.trace)))
 
     def _split_ite(self, neg, lits, deadline):
         """decide PC /\\ lits /\\ neg by case analysis on the conditions of the
@@ -1013,12 +1033,40 @@ class Engine(object):
                     decisions=self.decisions, obligations=self.obligations,
                     discharged=self.discharged, trivial=self.trivial,
                     unknown=len(self.unknown), cex=len(self.cex),
+                    cvc5_unsat=self.cvc5.get("unsat", 0), cvc5_unknown=self.cvc5.get("unknown", 0),
+                    cvc5_sat=self.cvc5.get("sat", 0),
                     failed_obligations=self.failed_obligations, shards=len(self.shards),
                     feas_queries=self.nq, feas_s=round(self.tq, 3),
                     obl_queries=self.nobl_q, obl_s=round(self.tobl, 3),
                     divzero_forks=self.divzero, exceptions=self.exceptions,
                     poison_compares=self.poison_compares,
                     truncated=self.truncated)
+
+
+def cvc5_check(text, ms=2000):
+    """second opinion on one SMT-LIB2 query (cvc5 Python API); returns
+    'sat' / 'unsat' / 'unknown' / None (cvc5 unavailable)"""
+    try:
+        import cvc5
+    except Exception:
+        return None
+    try:
+        slv = cvc5.Solver()
+        slv.setOption("tlimit-per", str(ms))
+        sm = cvc5.SymbolManager(slv)
+        p = cvc5.InputParser(slv, sm)
+        p.setStringInput(cvc5.InputLanguage.SMT_LIB_2_6, "(set-logic ALL)\n" + text, "q")
+        res = "unknown"
+        while True:
+            cmd = p.nextCommand()
+            if cmd.isNull():
+                break
+            out = cmd.invoke(slv, sm).strip()
+            if out in ("sat", "unsat", "unknown"):
+                res = out
+        return res
+    except Exception:
+        return "unknown"
 
 
 def _first_ite_cond(t):
